@@ -8,6 +8,5 @@ def main(argv):
         "builtins outside the modelled core (floats, chars, hashes, string functions, rest on arrays, non-integer indices) are not generated or are declined by the model (outcome UNSPEC, counted)",
         "the step budget of the harness (6000 VM instructions) and the fuel of the model (300) bound the programs compared",
     ], {
-        "append-aliasing": lambda r: r.get("append_uses", 0) >= 2 and not r.get("disagrees_also_without_append_aliasing", True),
         "tco-by-name": lambda r: r.get("defn_rebinds_and_calls_its_own_name") and not r.get("disagrees_also_without_self_tail_call", True),
     })
